@@ -468,8 +468,9 @@ class C10(Property):
                    'a Quantity wrapping an Expr as rate constant, nested Expr arguments and UncertainQuantity are outside the model')
     clauses_without_theorem = (
         'registry independence for Arrhenius / Eyring / Radiolytic rate EXPRESSIONS (only their args_dimensionality dictionaries have a '
-        'theorem; nested Expr arguments of dedimensionalisation are outside the model): oracle only (kind ode_expr: Arrhenius and Eyring, '
-        'orders 1-3, two registries / unit choices vs the hand formula); Radiolytic is not sampled',
+        'theorem; nested Expr arguments of dedimensionalisation are outside the model): oracle only (kind ode_expr: Arrhenius in 10 ways of '
+        'supplying it, Eyring, Radiolytic (yield x density x dose rate), THREE registries / unit choices each vs the hand formula)',
+        'array-valued rate constants (refused with ValueError by `.item()` whatever the dimension): model reactionCheckSized, correspondence + oracle, no theorem',
         'odesys.integrate with quantities in and out: only the three to_arrays callbacks composed with the post-processor have a theorem; '
         'integration itself is third party (unit_aware_solve over a very short time is sampled in the validate cases)',
         'the ⇐ direction of the equilibrium unit check on the REAL code (float64 factor equality): equilibrium_exact_model_unit_check_quirk is '
@@ -510,6 +511,11 @@ class C10(Property):
             cases.append(self._accept_case(rng, order, None))
             for w in WRONGS:
                 cases.append(self._accept_case(rng, order, w))
+        for order in range(0, 4):           # array-valued constants: sizes 1-3, right and wrong dimension
+            for n_ in (1, 2, 3):
+                for w in (None, rng.choice(WRONGS)):
+                    cases.append({'kind': 'accept', 'reac': _rand_reac(rng, order), 'prod': {'D': 1}, 'wrong': w, 'array_n': n_,
+                                  'param': {'mag': _rand_mag(rng), 'u': _rate_unit(rng, order, w)}})
         for _ in range(share(0.12)):
             cases.append(self._accept_case(rng, rng.choice([0, 1, 1, 2, 2, 3, 3, 4, 6]), rng.choice([None, None] + WRONGS)))
         for _ in range(share(0.03)):
@@ -526,7 +532,7 @@ class C10(Property):
             cases.append(self._ode_case(rng, tier, named=True, spectator=rng.random() < 0.12))
         for _ in range(share(0.10)):
             cases.append(self._as_reactions_case(rng))
-        for _ in range(min(share(0.04), 70)):
+        for _ in range(min(max(share(0.05), 24), 70)):
             cases.append(self._expr_case(rng))
         for _ in range(share(0.06)):
             cases.append(self._history_case(rng, tier))
@@ -590,6 +596,9 @@ class C10(Property):
         else:
             param = {'mag': _rand_mag(rng), 'u': _rate_unit(rng, order, wrong)}
         c = {'kind': 'accept', 'reac': reac, 'prod': {'D': 1}, 'param': _typify(rng, param, free=True), 'wrong': wrong}
+        if 'u' in param and not c['param'].get('mt') and rng.random() < 0.1:
+            c['array_n'] = rng.choice([1, 2, 3])     # an ARRAY-valued rate constant (parameter scan): `.item()` needs size 1
+            return c
         if 'u' in param and not c['param'].get('mt') and rng.random() < 0.08:
             c['wrap_expr'] = True          # pq.Quantity(<Arrhenius expression>, unit): check_consistent_units evaluates it at 1 K
             return c
@@ -775,7 +784,7 @@ class C10(Property):
         """Reaction(..., checks=..., dont_check=...): which checks run, and the refusal when both are given"""
         order = rng.randint(0, 3)
         c = self._accept_case(rng, order, rng.choice([None] + WRONGS))
-        c.pop('inact_reac', None); c.pop('inact_prod', None); c.pop('via', None)
+        c.pop('inact_reac', None); c.pop('inact_prod', None); c.pop('via', None); c.pop('array_n', None); c.pop('wrap_expr', None)
         r = rng.random()
         if r < 0.3:
             flags = {'checks': rng.choice([['consistent_units'], [], ['any_effect'], ['consistent_units', 'all_positive']]), 'dont_check': None}
@@ -786,7 +795,7 @@ class C10(Property):
         c['flags'] = flags
         return c
 
-    EXPR_VARIANTS = {'Arrhenius': ['plain', 'as_rateexpr', 'fk_named', 'partial_uk', 'subst', 'constants', 'ramp', 'ramp_free', 'bad_subst', 'noreg_constants'],
+    EXPR_VARIANTS = {'Radiolytic': ['plain'], 'Arrhenius': ['plain', 'as_rateexpr', 'fk_named', 'partial_uk', 'subst', 'constants', 'ramp', 'ramp_free', 'bad_subst', 'noreg_constants'],
                      'Eyring': ['plain', 'subst', 'constants']}
 
     def _expr_case(self, rng):
@@ -794,7 +803,7 @@ class C10(Property):
         ways get_odesys accepts: values, an ArrheniusParamWithUnits (as_RateExpr), free unique keys (include_params=False),
         unique keys for some arguments only, temperature as parameter / passive substitution / attribute of `constants` /
         RampedTemp substitution; a substitution for a key that occurs nowhere must be refused"""
-        cls = rng.choice(['Arrhenius', 'Arrhenius', 'Eyring'])
+        cls = rng.choice(['Arrhenius', 'Arrhenius', 'Eyring', 'Radiolytic'])
         order = rng.randint(1, 3)
         reac = {}
         for _ in range(order):
@@ -804,23 +813,35 @@ class C10(Property):
         A_si, phys_c = _nice(rng), {x: _nice(rng) for x in subst}
         Ea, T = F(rng.randint(100, 9000)), F(rng.randint(250, 600))
         confs = []
-        for _ in range(2):
+        rho_si, D_si = _nice(rng), _nice(rng)
+        for _ in range(3):
             # Eyring.__call__ multiplies by conc0**(1-order) itself: its first argument is per time per kelvin (see notes, finding 6)
-            ul = _rate_unit(rng, order) if cls == 'Arrhenius' else [[rng.choice(TIME_UNITS), -1], ['K', -1]]
+            if cls == 'Radiolytic':      # radiolytic yield: amount per energy
+                ul = rng.choice([[['mol', 1], ['joule', -1]], [['umol', 1], ['joule', -1]], [['mmol', 1], ['joule', -1]]])
+            else:
+                ul = _rate_unit(rng, order) if cls == 'Arrhenius' else [[rng.choice(TIME_UNITS), -1], ['K', -1]]
             c0 = {}
             for x in subst:
                 cul = _conc_units(rng)
                 c0[x] = {'mag': str(phys_c[x] / _book_u(cul)[0]), 'u': cul}
-            confs.append({'reg': _rand_reg(rng), 'A': {'mag': str(A_si / _book_u(ul)[0]), 'u': ul}, 'c0': c0,
-                          't': {'mag': _rand_mag(rng), 'u': [[rng.choice(TIME_UNITS), 1]]}})
-        self._expr_n = getattr(self, '_expr_n', 0) + 1
+            conf = {'reg': _rand_reg(rng), 'A': {'mag': str(A_si / _book_u(ul)[0]), 'u': ul}, 'c0': c0,
+                    't': {'mag': _rand_mag(rng), 'u': [[rng.choice(TIME_UNITS), 1]]}}
+            if cls == 'Radiolytic':
+                rl = rng.choice([[['kg', 1], ['m', -3]], [['g', 1], ['cm', -3]], [['kg', 1], ['dm', -3]]])
+                dl = [['gray', 1], [rng.choice(TIME_UNITS), -1]]
+                conf['rho'] = {'mag': str(rho_si / _book_u(rl)[0]), 'u': rl}
+                conf['D'] = {'mag': str(D_si / _book_u(dl)[0]), 'u': dl}
+            confs.append(conf)
+        if not hasattr(self, '_expr_cnt'):
+            self._expr_cnt = {}
+        self._expr_cnt[cls] = self._expr_cnt.get(cls, -1) + 1          # every variant of a class in turn
         vs = self.EXPR_VARIANTS[cls]
-        variant = vs[self._expr_n % len(vs)]
+        variant = vs[self._expr_cnt[cls] % len(vs)]
         if variant in ('ramp', 'ramp_free'):       # keep dT/dt * t small: T0 = T - dT/dt * t must not cancel digits of T
             for conf in confs:
                 conf['t'] = {'mag': str(rng.randint(1, 20)), 'u': [[rng.choice(['s', 'ms']), 1]]}
         return {'kind': 'ode_expr', 'cls': cls, 'variant': variant, 'reac': reac, 'prod': {'C': 1},
-                'subst': subst, 'A_si': str(A_si), 'Ea': str(Ea), 'T': str(T), 'confs': confs,
+                'subst': subst, 'A_si': str(A_si), 'Ea': str(Ea), 'T': str(T), 'rho_si': str(rho_si), 'D_si': str(D_si), 'confs': confs,
                 'dTdt': {'mag': str(rng.randint(1, 3)), 'u': [['K', 1], [rng.choice(['s', 'minute', 'hour']), -1]]}}
 
     def _roundtrip_case(self, rng, tier):
@@ -855,6 +876,8 @@ class C10(Property):
 
     def _model_case(self, c):
         k = c['kind']
+        if k == 'accept' and c.get('array_n'):
+            return {'op': 'reaction_check_sized', 'size': c['array_n'], 'param': _mj(c['param']), 'order': sum(c['reac'].values()), 'kind': k}
         if k == 'accept' and c.get('flags'):
             fl = c['flags']
             sel = ('consistent_units' in fl['checks']) if fl['checks'] is not None else ('consistent_units' not in (fl['dont_check'] or []))
@@ -927,6 +950,8 @@ class C10(Property):
         if k == 'accept' and c.get('flags'):
             return 'accept with checks=%s dont_check=%s' % ('given' if c['flags']['checks'] is not None else 'None',
                                                            'given' if c['flags']['dont_check'] is not None else 'None')
+        if k == 'accept' and c.get('array_n'):
+            return 'accept array-valued constant of size %d' % c['array_n']
         if k == 'accept' and c.get('wrap_expr'):
             return 'accept Quantity wrapping an Expr'
         if k == 'accept':
@@ -981,6 +1006,9 @@ class C10(Property):
                 raise AssertionError('from_string(%r) read %r, written %r' % (txt, got, want))
             return r
         param = _real(c['param'])
+        if c.get('array_n'):
+            import numpy as np
+            param = np.array([float(F(c['param']['mag'])) * (i + 1) for i in range(c['array_n'])]) * param.units
         if c.get('wrap_expr'):
             import numpy as np
             from chempy.kinetics.rates import Arrhenius
@@ -1131,6 +1159,11 @@ class C10(Property):
         v = c['variant']
         cls = getattr(rates, c['cls'])
         kw, p = {}, {'temperature': T_q}
+        if c['cls'] == 'Radiolytic':
+            rxn = Reaction(dict(c['reac']), dict(c['prod']), cls([A_q]))
+            odesys, extra = get_odesys(ReactionSystem([rxn], ' '.join(c['subst'])), unit_registry=_real_reg(conf['reg']))
+            return odesys, extra, [_real(conf['t']), {x: _real(conf['c0'][x]) for x in c['subst']},
+                                   {'density': _real(conf['rho']), 'doserate': _real(conf['D'])}], T
         if v == 'as_rateexpr':
             from chempy.kinetics.arrhenius import ArrheniusParamWithUnits
             param = ArrheniusParamWithUnits(A_q, Ea_q * cu.default_constants.molar_gas_constant)
@@ -1397,6 +1430,16 @@ class C10(Property):
             return 'named rate constant %d has dimension %s (order %d needs %s) but to_arrays accepted it: f=%r' % (
                 c['bad'], _book(c['A']['ks'][c['bad']])[2], sum(c['rxns'][c['bad']]['reac'].values()),
                 rate_dims(sum(c['rxns'][c['bad']]['reac'].values())), f)
+        if k == 'no_registry':
+            return self._oracle_no_registry(c)
+        if k == 'cstr_units':
+            return self._oracle_cstr_units(c)
+        if k == 'history':
+            return self._oracle_history(c)
+        if k == 'as_reactions':
+            return self._oracle_as_reactions(c)
+        if k == 'ode_expr':
+            return self._oracle_expr(c)
         if k == 'roundtrip':
             return self._oracle_roundtrip(c)
         if k == 'dedim_tcp':
@@ -1419,7 +1462,9 @@ class C10(Property):
                 if not _close(v * usi, _si(q)):
                     return 'dedimensionalisation: value x unit = %r, the argument is %r (SI)' % (v * usi, float(_si(q)))
             return None
-        return None
+        if k in ('derived_fallback', 'ode_units_arrhenius'):
+            return None          # correspondence-only kinds (their content is claimed through p_units in the ode kinds)
+        return 'no oracle claim for case kind %r' % k
 
     def _oracle_accept(self, c):
         p = c['param']
@@ -1428,6 +1473,20 @@ class C10(Property):
             expect = True
         else:
             expect = _book(p)[2] == rate_dims(order)
+        if c.get('array_n', 1) != 1:
+            # finding 10 (notes): `self.param.item()` sits outside the try — an array-valued constant of size != 1 is refused with
+            # ValueError whatever its dimension, by the constructor and by check_consistent_units(throw=False) alike
+            for call in (lambda: self._mk(c), lambda: self._mk(c, checks=()).check_consistent_units()):
+                try:
+                    call()
+                except ValueError:
+                    continue
+                except Exception as e:
+                    return 'array-valued rate constant: %s instead of ValueError' % exc_name(e)
+                if expect:
+                    continue      # should the code ever accept arrays, a right-dimension one is fine
+                return 'array-valued rate constant %s of the wrong dimension for order %d was accepted' % (p, order)
+            return None
         fl = c.get('flags')
         if fl:
             both = fl['checks'] is not None and fl['dont_check'] is not None
@@ -1726,6 +1785,8 @@ class C10(Property):
             rate = k
             for x, n in c['reac'].items():
                 rate *= cs[x] ** n
+            if c['cls'] == 'Radiolytic':       # yield x density x dose rate, no dependence on concentrations
+                rate = A * float(F(c['rho_si'])) * float(F(c['D_si']))
             want = [(c['prod'].get(x, 0) - c['reac'].get(x, 0)) * rate for x in c['subst']]
             try:
                 odesys, extra, ins, _ = self._build_expr(c, conf)
@@ -1739,6 +1800,21 @@ class C10(Property):
                 if v == 'bad_subst' and isinstance(e, ValueError) and not isinstance(e, InputMutated):
                     continue
                 return '%s system (%s) raised %s: %s' % (c['cls'], v, exc_name(e), str(e)[:160])
+            if c['cls'] == 'Radiolytic':
+                dens, dose = _d(M=1, L=-3), _d(L=2, T=-3)
+                if sorted(odesys.param_names) != ['density', 'doserate'] or len(extra['p_units']) != 2:
+                    return 'Radiolytic system: parameters %r, p_units %r' % (list(odesys.param_names), extra['p_units'])
+                for key, pu in zip(extra['param_keys'], extra['p_units']):
+                    usi, ud = _read(pu)
+                    wd = dens if key == 'density' else dose
+                    if ud != wd or not _close(usi, _reg_si(conf['reg'], wd)):
+                        return 'Radiolytic system: reported unit of %s = %r, registry %s' % (key, pu, conf['reg'])
+                unit = float(_reg_si(conf['reg'], CONC) / _reg_si(conf['reg'], TIME))
+                for x, w_, w in zip(c['subst'], f, want):
+                    if not _close(w_ * unit, w, abs(rate), rtol=1e-9):
+                        return ('Radiolytic yield %s, density %s, dose rate %s, registry %s: d[%s]/dt = %r mol m-3 s-1, by hand %r' % (
+                            conf['A'], conf['rho'], conf['D'], conf['reg'], x, w_ * unit, w))
+                continue
             want_keys = {'fk_named': ['temperature', 'A1', 'Ea1'], 'subst': [], 'constants': [], 'ramp': [], 'ramp_free': [],
                          'noreg_constants': []}.get(v, ['temperature'])
             if v == 'noreg_constants':
